@@ -404,6 +404,13 @@ pub fn run(args: &Args) -> i32 {
                 json!({"engine":"schedmc-c09","fault_index":i,"fault":fl[i].1.label(),"acceptor":format!("{:?}", fl[i].0),"schedule":prefix,"tier": if thorough {"thorough"} else {"quick"}}));
         }
     }
+    std::panic::set_hook(Box::new(|_| {}));
+    let socks = socket_scripts();
+    let _ = std::panic::take_hook();
+    match socks {
+        Ok(n) => run.cov("socket_scripts_real_tcp_unix", n),
+        Err(e) => run.violation(format!("socket-script {}", e.split(':').next().unwrap_or("")), format!("supplementary real-socket script: {e}"), json!({"engine":"schedmc-c09-sockets","what":e})),
+    }
     run.cov("evaluations", evaluations);
     run.cov("distinct_nontrivial", all_traces.len() as u64);
     run.cov("fault_positions", fl.len() as u64);
@@ -412,7 +419,7 @@ pub fn run(args: &Args) -> i32 {
     run.cov("exhaustive", exhaustive);
     run.cov("rule", "fault menu (connect future cancelled after n polls, accept then close, garbage, h2 preface then garbage, a valid request truncated at EVERY byte offset then close / then stall, response read truncated, handler error; with the TLS acceptor: plaintext to the TLS port, ClientHello truncated at offsets then close / stall, fatal alert after the hello) x acceptor (duplex incoming, Acceptor enum, Acceptor with TLS) x every schedule with at most `deviation_bound` deviations, one well-behaved request in flight and a probe connection afterwards; distinct = distinct (acceptor, fault class, observation trace)");
     run.cov("samples", vec![json!({"acceptor":"Duplex","fault":"connect-cancel-after-1-polls","expect":"serving future still pending, request 1 and probe 50 answered intact"})]);
-    run.assume("TCP and Unix listeners are not explored under the controlled scheduler (the kernel is not ours to schedule); their accept paths differ from the duplex path only in the listener poll");
+    run.assume("TCP and Unix listeners are not explored under the controlled scheduler (the kernel is not ours to schedule): a fixed set of sequential fault scripts (reset / close before accept, garbage, truncated request, reset after request) runs against real sockets in a tokio runtime as a supplementary, one-sided check");
     run.assume("no timers: a stalled peer stalls its own connection forever and nothing else");
     if let Some(m) = machinery {
         println!("MACHINERY-ERROR {m}");
@@ -420,6 +427,129 @@ pub fn run(args: &Args) -> i32 {
         return 2;
     }
     run.finish()
+}
+
+/// Supplementary, one-sided: the same kinds of fault against REAL TCP and Unix listeners inside a
+/// tokio runtime (no schedule control — the kernel decides). Each script: misbehaving client(s), then
+/// a well-behaved request; the serving task must still be running and the request answered.
+fn socket_scripts() -> Result<u64, String> {
+    use hyper::rt::Executor as _;
+    use std::time::Duration;
+    let rt = tokio::runtime::Builder::new_current_thread().enable_all().build().map_err(|e| e.to_string())?;
+    let dir = tempfile::Builder::new().prefix("hdmc-sock").tempdir_in("/verif/target").map_err(|e| e.to_string())?;
+    let mut n = 0u64;
+    #[derive(Clone, Copy, Debug)]
+    enum SockFault {
+        None,
+        ResetBeforeAccept,
+        CloseBeforeAccept,
+        GarbageThenClose,
+        TruncatedRequest,
+        ResetAfterRequest,
+    }
+    let faults = [SockFault::None, SockFault::ResetBeforeAccept, SockFault::CloseBeforeAccept, SockFault::GarbageThenClose, SockFault::TruncatedRequest, SockFault::ResetAfterRequest];
+    for unix in [false, true] {
+        for fault in faults {
+            if unix && matches!(fault, SockFault::ResetBeforeAccept | SockFault::ResetAfterRequest) {
+                continue; // no RST on unix sockets
+            }
+            let obs = new_obs();
+            let sock_path = dir.path().join(format!("s{n}.sock"));
+            let r: Result<(), String> = rt.block_on(async {
+                let obs_h = obs.clone();
+                let svc = tower::service_fn(move |req: http::Request<Body>| handler(obs_h.clone(), "srv", req));
+                let (acceptor, tcp_addr): (Acceptor, Option<std::net::SocketAddr>) = if unix {
+                    let l = tokio::net::UnixListener::bind(&sock_path).map_err(|e| e.to_string())?;
+                    (Acceptor::from(l), None)
+                } else {
+                    let l = tokio::net::TcpListener::bind("127.0.0.1:0").await.map_err(|e| e.to_string())?;
+                    let a = l.local_addr().map_err(|e| e.to_string())?;
+                    (Acceptor::from(l), Some(a))
+                };
+                // faults that must already sit in the accept backlog when the server starts
+                match (fault, tcp_addr) {
+                    (SockFault::ResetBeforeAccept, Some(a)) => {
+                        let s = std::net::TcpStream::connect(a).map_err(|e| e.to_string())?;
+                        socket2::SockRef::from(&s).set_linger(Some(Duration::ZERO)).map_err(|e| e.to_string())?;
+                        drop(s);
+                        tokio::time::sleep(Duration::from_millis(30)).await;
+                    }
+                    (SockFault::CloseBeforeAccept, Some(a)) => {
+                        drop(std::net::TcpStream::connect(a).map_err(|e| e.to_string())?);
+                        tokio::time::sleep(Duration::from_millis(30)).await;
+                    }
+                    (SockFault::CloseBeforeAccept, None) => {
+                        drop(std::os::unix::net::UnixStream::connect(&sock_path).map_err(|e| e.to_string())?);
+                        tokio::time::sleep(Duration::from_millis(30)).await;
+                    }
+                    _ => {}
+                }
+                let server = Server::builder().with_acceptor(acceptor).with_shared_service(svc).with_auto_http().with_tokio();
+                let handle = tokio::spawn(async move { server.await.map_err(|e| e.to_string()) });
+                // faults after the server is up
+                use tokio::io::AsyncWriteExt;
+                let bytes: Option<Vec<u8>> = match fault {
+                    SockFault::GarbageThenClose => Some(b"\x00\xffgarbage\r\n\r\n".to_vec()),
+                    SockFault::TruncatedRequest => Some(good_request_bytes(77)[..40].to_vec()),
+                    SockFault::ResetAfterRequest => Some(good_request_bytes(77)),
+                    _ => None,
+                };
+                if let Some(b) = bytes {
+                    if let Some(a) = tcp_addr {
+                        let mut s = tokio::net::TcpStream::connect(a).await.map_err(|e| e.to_string())?;
+                        let _ = s.write_all(&b).await;
+                        if matches!(fault, SockFault::ResetAfterRequest) {
+                            let _ = s.set_linger(Some(Duration::ZERO));
+                        }
+                        drop(s);
+                    } else {
+                        let mut s = tokio::net::UnixStream::connect(&sock_path).await.map_err(|e| e.to_string())?;
+                        let _ = s.write_all(&b).await;
+                        drop(s);
+                    }
+                    tokio::time::sleep(Duration::from_millis(30)).await;
+                }
+                // the well-behaved request
+                let req = http::Request::builder().method("POST").uri("/r50?q=50").header("x-id", "50").header("host", "server.test").body(ChunkBody::from_vecs(req_chunks(50))).unwrap();
+                let resp = tokio::time::timeout(Duration::from_secs(10), async {
+                    if let Some(a) = tcp_addr {
+                        let s = tokio::net::TcpStream::connect(a).await.map_err(|e| format!("connect: {e}"))?;
+                        let (mut sender, conn) = hyper::client::conn::http1::handshake(hyperdriver::bridge::io::TokioIo::new(s)).await.map_err(|e| e.to_string())?;
+                        hyperdriver::bridge::rt::TokioExecutor::new().execute(async move { let _ = conn.await; });
+                        let r = sender.send_request(req).await.map_err(|e| format!("send: {e}"))?;
+                        collect_response(r).await
+                    } else {
+                        let s = tokio::net::UnixStream::connect(&sock_path).await.map_err(|e| format!("connect: {e}"))?;
+                        let (mut sender, conn) = hyper::client::conn::http1::handshake(hyperdriver::bridge::io::TokioIo::new(s)).await.map_err(|e| e.to_string())?;
+                        hyperdriver::bridge::rt::TokioExecutor::new().execute(async move { let _ = conn.await; });
+                        let r = sender.send_request(req).await.map_err(|e| format!("send: {e}"))?;
+                        collect_response(r).await
+                    }
+                })
+                .await
+                .map_err(|_| "the well-behaved request timed out".to_string())?;
+                let alive = !handle.is_finished();
+                handle.abort();
+                let ended = match handle.await {
+                    Ok(r) => format!("{r:?}"),
+                    Err(e) if e.is_panic() => "panicked".to_string(),
+                    Err(_) => "aborted".to_string(),
+                };
+                if !alive {
+                    return Err(format!("the serving future ended ({ended}) after fault {fault:?}"));
+                }
+                match resp {
+                    Ok(r) if r == expected_resp(50, "srv") => Ok(()),
+                    other => Err(format!("the well-behaved request after fault {fault:?} saw {other:?} (server: {ended})")),
+                }
+            });
+            n += 1;
+            if let Err(e) = r {
+                return Err(format!("{} acceptor, fault {fault:?}: {e}", if unix { "unix" } else { "tcp" }));
+            }
+        }
+    }
+    Ok(n)
 }
 
 fn replay(path: &str, tls: Option<&super::tlsfix::TlsFixture>) -> i32 {
